@@ -465,6 +465,13 @@ class AttributeCollection(MutableMapping[int, Attribute]):
         # Get the attribute class to check its behavior flags
         kls = Attribute.klass_by_id(aid)
 
+        if kls and aid in (Attribute.CODE.MP_REACH_NLRI, Attribute.CODE.MP_UNREACH_NLRI) and not Attribute.registered(aid, flag):
+            # RFC 7606 3.c: wrong Optional / Transitive bits make the attribute malformed (treat-as-withdraw).
+            # Its routes are still readable: read them with the flags it should have carried, so that they are
+            # withdrawn too instead of being forgotten while the rest of the UPDATE is announced
+            self.add(TreatAsWithdraw(aid))
+            flag = Attribute.Flag(kls.FLAG)
+
         if aid in self:
             if kls and kls.NO_DUPLICATE:
                 raise Notify(3, 1, 'multiple attribute for {}'.format(Attribute.CODE.name(aid)))
